@@ -700,4 +700,422 @@ class PackagePortionsEngine(Engine):
     return {'obs': T('Done'), 'fails': fails[:3], 'nontrivial': bool(later) or unreadable is not None, 'tags': tags}
 
 
-ENGINES = [IncludeEngine(), PackageNameEngine(), PackagePortionsEngine()]
+# ---------------------------------------------------------------------------------------------------------------------
+# includes x dynamic registration: every file of the include tree resolves names through ITS OWN imports
+DI_FUNCS = {'h1': 'c14dyn.alpha', 'h2': 'c14dyn.alpha', 'h3': 'c14dyn.beta', 'h4': 'c14dyn.beta'}
+DI_ORDER = ['h1', 'h2', 'h3', 'h4']
+# module -> [(import statement, the name it binds, what that name denotes)]
+DI_FORMS = {
+    'c14dyn.alpha': [('import c14dyn.alpha', 'c14dyn', 'c14dyn'), ('import c14dyn.alpha as a1', 'a1', 'c14dyn.alpha'),
+                     ('from c14dyn import alpha', 'alpha', 'c14dyn.alpha'), ('from c14dyn import alpha as a2', 'a2', 'c14dyn.alpha'),
+                     ('import c14dyn.alpha as m', 'm', 'c14dyn.alpha')],     # 'm': the same alias, another module, in another file
+    'c14dyn.beta': [('import c14dyn.beta', 'c14dyn', 'c14dyn'), ('import c14dyn.beta as b1', 'b1', 'c14dyn.beta'),
+                    ('from c14dyn import beta', 'beta', 'c14dyn.beta'), ('from c14dyn import beta as b2', 'b2', 'c14dyn.beta'),
+                    ('import c14dyn.beta as m', 'm', 'c14dyn.beta')],
+}
+DI_HEADER = 'from __gin__ import dynamic_registration'
+DI_FILES = ['c14d_main.gin', 'c14d_inc1.gin', 'sub/c14d_inc2.gin', 'c14d_inc3.gin']
+DI_LOC = 'c14dloc/'
+DI_PARAMS = ['p', 'q']
+DI_GHOSTS = ['ghost.h1', 'nowhere.mod.h9']       # first component bound by no import statement of any file
+DI_SCOPES = ['', '', '', 's1']
+
+
+def di_symbols(f):
+  """what the file's own import statements bind, in statement order (a later statement rebinds a name): name -> module"""
+  table = {}
+  for mod, form in f['imports']:
+    _, name, denotes = DI_FORMS[mod][form]
+    table[name] = denotes
+  return table
+
+
+def di_resolve(f, selector):
+  """The function a selector written in file f denotes, or None when the name is unknown there.  A file under dynamic
+  registration sees exactly what its own import statements provide (Python attribute access from the bound name on);
+  a plain file sees what was registered by decorator (here: pf)."""
+  if not f['dyn']:
+    return 'pf' if selector == 'pf' else None
+  parts = selector.split('.')
+  cur = di_symbols(f).get(parts[0])
+  for p in parts[1:]:
+    if cur == 'c14dyn' and p in ('alpha', 'beta'):      # both submodules are loaded: attributes of the package
+      cur = 'c14dyn.' + p
+    elif cur in ('c14dyn.alpha', 'c14dyn.beta') and DI_FUNCS.get(p) == cur:
+      cur = p
+    else:
+      return None
+  return cur if cur in DI_FUNCS else None
+
+
+def di_render(f):
+  out = [DI_HEADER] if f['dyn'] else []
+  out += [DI_FORMS[mod][form][0] for mod, form in f['imports']]
+  for it in f['items']:
+    if it[0] == 'bind':
+      out.append('%s%s.%s = %d' % (it[1] + '/' if it[1] else '', it[2], it[3], it[4]))
+    elif it[0] == 'ref':
+      out.append('%s.%s = @%s()' % (it[1], it[2], it[3]))
+    else:
+      out.append("include '%s'" % it[1])
+  return out
+
+
+def di_skipped(sk, selector):
+  if sk is None or sk is False:
+    return False
+  if sk is True:
+    return True
+  return selector in sk[1]
+
+
+class DIStop(Exception):
+  def __init__(self, kind, what):
+    super().__init__(what)
+    self.kind, self.what = kind, what
+
+
+def di_expect(case):
+  """The flattened reading, interpreted by the harness: every statement of an included file takes effect at the point of
+  the include, then the rest of the including file, each statement's names read through the imports of the file it is
+  written in.  Returns (bindings {scope: {fn: {param: int | ['call', fn]}}}, returned value, ('unknown' | 'unreadable',
+  name) or None)."""
+  state = {'': {}, 's1': {}}
+  sk = case['call'][-1]
+  files = case['files']
+
+  def run_body(name):
+    f = files[name]
+    includes = []
+    for it in f['items']:
+      if it[0] == 'include':
+        includes.append(run_file(it[1]))
+        continue
+      sel = it[2] if it[0] == 'bind' else it[1]
+      fn = di_resolve(f, sel)
+      if fn is None:
+        if di_skipped(sk, sel):
+          continue
+        raise DIStop('unknown', sel)
+      if it[0] == 'bind':
+        state[it[1]].setdefault(fn, {})[it[3]] = it[4]
+      else:
+        target = di_resolve(f, it[3])
+        assert target is not None, 'generator: a reference to an unknown name'
+        state[''].setdefault(fn, {})[it[2]] = ['call', target]
+    # every import statement written in the file, in order (the statement enabling dynamic registration is one of them)
+    return includes, (['__gin__.dynamic_registration'] if f['dyn'] else []) + [mod for mod, _ in f['imports']]
+
+  def run_file(name):
+    if name not in files or files[name]['at'] is None:
+      raise DIStop('unreadable', name)
+    includes, imports = run_body(name)
+    return [name, imports, includes]
+  call = case['call']
+  value, stop = None, None
+  try:
+    if call[0] == 'file':
+      value = run_file(call[1])
+    elif call[0] == 'text':
+      includes, imports = run_body(call[1])
+      value = [includes, imports]
+    else:
+      value = [run_file(n) for n in call[1]]
+      if call[2] is not None:
+        run_body(call[2])
+  except DIStop as e:
+    value, stop = None, (e.kind, e.what)
+  return state, value, stop
+
+
+def di_call_result(state, scope, fn, defaults):
+  """what calling fn in `scope` returns under `state`, or None when that involves a reference seen from inside a scope"""
+  eff = dict(state[''].get(fn, {}))
+  if scope:
+    eff.update(state[scope].get(fn, {}))
+  out = []
+  for p in (['a', 'b'] if fn == 'pf' else DI_PARAMS):
+    v = eff.get(p, defaults[p])
+    if isinstance(v, list):
+      if scope:
+        return None
+      v = di_call_result(state, '', v[1], defaults)
+    out.append(v)
+  return out
+
+
+class IncludeDynRegEngine(Engine):
+  """Include trees whose files use dynamic registration ('from __gin__ import dynamic_registration' + their own import
+  statements, in every spelling: plain, aliased, from-import, the same alias for different modules in different files),
+  mixed with plain files; every file has bindings before AND after its includes, written through its own imports, on
+  functions other files of the tree bind too (through other spellings), literal values and evaluated references;
+  optionally an unknown name (skip_unknown in every form) or an unreadable included file.  Entry points:
+  parse_config_file, parse_config (the including 'file' is a string), parse_config_files_and_bindings (the bindings are
+  such a 'file' too).  Independent oracle: the harness interprets the flattened statement sequence itself (each name
+  through the imports of the file it is written in) and compares what CALLING every function returns afterwards, the
+  returned include tree with each file's imports, the outcome class and the lock.  Implementation only: Model/Stmt.v
+  registers everything up front and has no per-file symbol table."""
+  name = 'include-dynamic-registration'
+  model = False
+  rule = ('include trees (depth <= 3, repeated includes) of files under dynamic registration with their own import spellings / '
+          'aliases (one alias may denote different modules in different files) and plain files, conflicting bindings before and '
+          'after every include, literal and @reference() values, unknown names x skip_unknown forms, unreadable included files, '
+          'one extra search location; entry points parse_config_file / parse_config / parse_config_files_and_bindings. '
+          'Independent oracle: the harness interprets the flattened statements (names through the imports of the file they are '
+          'written in) and compares the results of calling every function, the returned tree, the outcome class, the lock. '
+          'non-trivial = a file under dynamic registration has a statement after an include that names a function through '
+          'its own imports.')
+
+  def budget(self, tier):
+    return 150 if tier == 'quick' else 6000
+
+  def corpus(self):
+    return [
+        # three levels, every file under dynamic registration with another spelling; bindings after each include override
+        # the included file's; a function first named after the include; an evaluated reference after the include
+        {'files': {
+            'c14d_main.gin': {'dyn': True, 'imports': [['c14dyn.alpha', 0]], 'at': 0, 'items': [
+                ['bind', '', 'c14dyn.alpha.h1', 'p', 1], ['include', 'c14d_inc1.gin'], ['bind', '', 'c14dyn.alpha.h2', 'p', 3],
+                ['bind', '', 'c14dyn.alpha.h1', 'p', 2], ['ref', 'c14dyn.beta.h3', 'q', 'c14dyn.alpha.h2']]},
+            'c14d_inc1.gin': {'dyn': True, 'imports': [['c14dyn.alpha', 4]], 'at': 0, 'items': [
+                ['bind', '', 'm.h1', 'p', 100], ['include', 'sub/c14d_inc2.gin'], ['bind', '', 'm.h1', 'q', 8]]},
+            'sub/c14d_inc2.gin': {'dyn': True, 'imports': [['c14dyn.beta', 4], ['c14dyn.alpha', 1]], 'at': 1, 'items': [
+                ['bind', '', 'a1.h1', 'q', 7], ['bind', '', 'm.h3', 'p', 9]]}},
+         'call': ['file', 'c14d_main.gin', None]},
+        # the same shape with skip_unknown=True: nothing after an include may be dropped silently
+        {'files': {
+            'c14d_main.gin': {'dyn': True, 'imports': [['c14dyn.alpha', 2], ['c14dyn.beta', 1]], 'at': 0, 'items': [
+                ['include', 'c14d_inc1.gin'], ['bind', '', 'alpha.h1', 'q', 8], ['bind', 's1', 'b1.h4', 'p', 5],
+                ['bind', '', 'ghost.h1', 'p', 6]]},
+            'c14d_inc1.gin': {'dyn': True, 'imports': [['c14dyn.alpha', 3]], 'at': 0, 'items': [['bind', '', 'a2.h1', 'q', 7]]}},
+         'call': ['fab', ['c14d_main.gin'], None, None, True]},
+        # a config string under dynamic registration including a plain file, then going on; as the bindings of the
+        # multi-file entry point after a file that includes as well
+        {'files': {
+            'c14d_main.gin': {'dyn': True, 'imports': [['c14dyn.beta', 3]], 'at': None, 'items': [
+                ['bind', '', 'b2.h3', 'p', 1], ['include', 'c14d_inc1.gin'], ['bind', '', 'b2.h3', 'p', 2], ['bind', '', 'b2.h4', 'q', 3]]},
+            'c14d_inc1.gin': {'dyn': False, 'imports': [], 'at': 1, 'items': [['bind', '', 'pf', 'a', 4]]},
+            'sub/c14d_inc2.gin': {'dyn': True, 'imports': [['c14dyn.beta', 2]], 'at': 0, 'items': [
+                ['include', 'c14d_inc1.gin'], ['bind', '', 'beta.h3', 'p', 0]]}},
+         'call': ['fab', ['sub/c14d_inc2.gin'], 'c14d_main.gin', False, None]},
+    ]
+
+  def gen(self, rng, tier):
+    nfiles = rng.randint(2, 4)
+    names = DI_FILES[:nfiles]
+    files = {}
+    used = {n: set() for n in names}
+    for i, n in enumerate(names):
+      dyn = rng.random() < 0.8
+      imports = []
+      for mod in rng.sample(sorted(DI_FORMS), rng.randint(1, 2)) if dyn or rng.random() < 0.3 else []:
+        imports.append([mod, rng.randrange(len(DI_FORMS[mod]))])
+      if dyn and rng.random() < 0.2:        # a module imported twice under two names
+        mod = rng.choice(imports)[0]
+        imports.append([mod, rng.randrange(len(DI_FORMS[mod]))])
+      f = {'dyn': dyn, 'imports': imports, 'items': [], 'at': rng.choice([0, 0, 1])}
+      table = di_symbols(f)
+
+      def spellings():
+        """every (selector, fn) this file can write through its own imports"""
+        out = []
+        for name, denotes in sorted(table.items()):
+          for fn, mod in sorted(DI_FUNCS.items()):
+            if denotes == 'c14dyn':
+              out.append(('%s.%s' % (mod, fn), fn))
+            elif denotes == mod:
+              out.append(('%s.%s' % (name, fn), fn))
+        return out
+
+      def statement(lo):
+        if not dyn:
+          return ['bind', rng.choice(DI_SCOPES), 'pf', rng.choice(['a', 'b']), rng.randint(lo, lo + 99)]
+        sp = spellings()
+        sel, fn = rng.choice(sp)
+        lower = [(s, g) for s, g in sp if DI_ORDER.index(g) < DI_ORDER.index(fn)]
+        if lower and rng.random() < 0.2:    # references only point to functions earlier in DI_ORDER: no cycles
+          return ['ref', sel, rng.choice(DI_PARAMS), rng.choice(lower)[0]]
+        return ['bind', rng.choice(DI_SCOPES), sel, rng.choice(DI_PARAMS), rng.randint(lo, lo + 99)]
+      later = names[i + 1:]
+      for _ in range(rng.randint(1, 4)):
+        if later and rng.random() < 0.45:
+          inc = rng.choice(later)
+          f['items'].append(['include', inc])
+          used[n].add(inc)
+          for _ in range(rng.choice([0, 1, 1, 2])):     # the rest of the including file
+            f['items'].append(statement(100))
+          if rng.random() < 0.15:
+            f['items'].append(['include', inc])          # included again: applied again, at that point
+        else:
+          f['items'].append(statement(0))
+      files[n] = f
+    if not used[names[0]]:                   # the entry file always includes something and goes on afterwards
+      f = files[names[0]]
+      f['items'].insert(rng.randint(0, len(f['items'])), ['include', names[1]])
+    x = rng.random()
+    if x < 0.25:                             # one unknown name somewhere
+      f = files[rng.choice(names)]
+      pool = list(DI_GHOSTS) if f['dyn'] else ['nope.q']
+      pool += ['%s.nofn' % nm for nm, d in sorted(di_symbols(f).items()) if d != 'c14dyn'] if f['dyn'] else []
+      f['items'].insert(rng.randint(0, len(f['items'])), ['bind', '', rng.choice(pool), 'p', rng.randint(0, 9)])
+    elif x < 0.35:                           # one file nobody can read
+      files[rng.choice(names[1:])]['at'] = None
+    sk = rng.choice([None, None, None, False, True, True, ['list', ['ghost.h1']], ['tuple', ['nowhere.mod.h9', 'nope.q']],
+                     ['set', ['ghost.h1', 'a1.nofn', 'm.nofn', 'nope.q']], ['list', ['other.name']]])
+    y = rng.random()
+    if y < 0.5:
+      call = ['file', names[0], sk]
+    elif y < 0.75:
+      call = ['text', names[0], sk]
+    else:
+      flist = [names[0]] + ([rng.choice(names)] if rng.random() < 0.4 else [])
+      call = ['fab', flist, rng.choice([None, names[-1], names[0]]), rng.choice([None, None, True, False]), sk]
+    if call[0] == 'text' and rng.random() < 0.5:
+      files[names[0]]['at'] = None           # the string is not a file anyone can read as well (nothing includes it)
+    return {'files': files, 'call': call}
+
+  def shrink(self, case):
+    for n in case['files']:
+      for i in range(len(case['files'][n]['items'])):
+        c = copy.deepcopy(case)
+        del c['files'][n]['items'][i]
+        yield c
+    if case['call'][-1] is not None:
+      c = copy.deepcopy(case)
+      c['call'][-1] = None
+      yield c
+    if case['call'][0] == 'fab':
+      if case['call'][2] is not None:
+        c = copy.deepcopy(case)
+        c['call'][2] = None
+        yield c
+      if len(case['call'][1]) > 1:
+        c = copy.deepcopy(case)
+        c['call'][1] = c['call'][1][:1]
+        yield c
+      if len(case['call'][1]) == 1 and case['call'][2] is None and case['files'][case['call'][1][0]]['at'] is not None:
+        yield dict(copy.deepcopy(case), call=['file', case['call'][1][0], case['call'][-1]])
+    if case['call'][0] == 'text' and case['files'][case['call'][1]]['at'] is not None:
+      yield dict(copy.deepcopy(case), call=['file', case['call'][1], case['call'][-1]])
+
+  def impl(self, case):
+    import os
+    import sys
+    import types
+    files = case['files']
+    call = case['call']
+    sk = call[-1]
+    want_state, want_value, stop = di_expect(case)
+    gin = C.fresh_gin()
+    mods, fns = {}, {}
+    for name in ['c14dyn', 'c14dyn.alpha', 'c14dyn.beta']:
+      mod = types.ModuleType(name)
+      mod.__path__ = []
+      mods[name] = mod
+      if '.' in name:
+        setattr(mods['c14dyn'], name.split('.')[1], mod)
+    defaults = {'p': -1, 'q': -2, 'a': -3, 'b': -4}
+    for fn, modname in DI_FUNCS.items():
+      env = {'__name__': modname}
+      exec('def %s(p=-1, q=-2):\n  return [p, q]\n' % fn, env)  # pylint: disable=exec-used
+      setattr(mods[modname], fn, env[fn])
+      fns[fn] = env[fn]
+
+    @gin.configurable
+    def pf(a=-3, b=-4):
+      return [a, b]
+    placed = {os.path.join(DI_LOC if f['at'] else '', n): '\n'.join(di_render(f)) + '\n'
+              for n, f in files.items() if f['at'] is not None}
+    gin.config.register_file_reader(lambda path: textm.NamedStringIO(placed[path], path), lambda path: path in placed)
+    gin.add_config_file_search_path(DI_LOC)
+    saved = {k: sys.modules.get(k) for k in mods}
+    sys.modules.update(mods)
+    fails, tags = [], [call[0]]
+    kw = {} if sk is None else {'skip_unknown': textm.sk_py(sk)}
+    tree = lambda t: [t.filename, list(t.imports), [tree(i) for i in t.includes]]
+    try:
+      got_value, err = None, None
+      try:
+        if call[0] == 'file':
+          got_value = tree(gin.parse_config_file(call[1], **kw))
+        elif call[0] == 'text':
+          incs, imps = gin.parse_config('\n'.join(di_render(files[call[1]])) + '\n', **kw)
+          got_value = [[tree(i) for i in incs], list(imps)]
+        else:
+          if call[3] is not None:
+            kw['finalize_config'] = call[3]
+          got_value = [tree(t) for t in gin.parse_config_files_and_bindings(
+              list(call[1]), di_render(files[call[2]]) if call[2] is not None else None, **kw)]
+      except Exception as e:  # pylint: disable=broad-except
+        err = (type(e).__name__, isinstance(e, OSError), str(e)[:400])
+      # what every function of the universe returns now, at top level and inside scope s1
+      got, want = {}, {}
+      for scope in ('', 's1'):
+        for fn in DI_ORDER + ['pf']:
+          w = di_call_result(want_state, scope, fn, defaults)
+          if w is None:
+            continue
+          key = (scope + '/' if scope else '') + fn
+          want[key] = w
+          try:
+            try:
+              cfn = pf if fn == 'pf' else gin.get_configurable(fns[fn])
+            except (ValueError, KeyError):
+              cfn = fns[fn]        # nothing ever named it: it is not a configurable, calling it gives its defaults
+            if scope:
+              with gin.config_scope(scope):
+                got[key] = cfn()
+            else:
+              got[key] = cfn()
+          except Exception as e:  # pylint: disable=broad-except
+            got[key] = 'raised %s: %s' % (type(e).__name__, str(e)[:200])
+      text = {n: di_render(f) for n, f in files.items()}
+      if stop is None:
+        if err is not None:
+          fails.append(('readable-config-rejected', 'every name of every file is provided by that file\'s own imports (or '
+                        'skipped by skip_unknown=%r) and every included file is readable, yet %s: %s; files: %r' %
+                        (sk, err[0], err[2], text)))
+        else:
+          if got != want:
+            diff = {k: (got[k], want[k]) for k in want if got[k] != want[k]}
+            fails.append(('include-not-in-place', 'calling the functions after the parse, (returned, the flattened reading '
+                          'gives): %r; files: %r' % (diff, text)))
+          if got_value != want_value:
+            fails.append(('include-tree', 'returned %r, the include tree with each file\'s imports is %r' % (got_value, want_value)))
+          if call[0] == 'fab':
+            want_lock = True if call[3] is None else call[3]
+            if gin.config_is_locked() != want_lock:
+              fails.append(('entry-point-finalize-default', 'finalize_config=%r: locked=%r' % (call[3], gin.config_is_locked())))
+      else:
+        tags.append(stop[0])
+        if stop[0] == 'unreadable' and (err is None or not err[1]):
+          fails.append(('missing-file-not-reported', 'nobody can read %r, outcome %r' % (stop[1], err or got_value)))
+        elif stop[0] == 'unknown' and (err is None or err[1]):
+          fails.append(('unknown-name-not-an-error', '%r is provided by no import of the file naming it and skip_unknown=%r '
+                        'does not cover it, outcome %r; files: %r' % (stop[1], sk, err or got_value, text)))
+        elif got != want:
+          diff = {k: (got[k], want[k]) for k in want if got[k] != want[k]}
+          fails.append(('include-not-in-place', 'calling the functions after the parse stopped at %r, (returned, the '
+                        'statements before that point give): %r; files: %r' % (stop, diff, text)))
+        if call[0] == 'fab' and gin.config_is_locked():
+          fails.append(('entry-point-finalize-default', 'the parse failed, yet the config is locked'))
+    finally:
+      for k, v in saved.items():
+        if v is None:
+          sys.modules.pop(k, None)
+        else:
+          sys.modules[k] = v
+    nontrivial = False
+    for f in files.values():
+      seen_include = False
+      for it in f['items']:
+        if it[0] == 'include':
+          seen_include = True
+        elif seen_include and f['dyn'] and di_resolve(f, it[2] if it[0] == 'bind' else it[1]) is not None:
+          nontrivial = True
+    if nontrivial:
+      tags.append('dyn-after-include')
+    return {'obs': T('Done'), 'fails': fails[:3], 'nontrivial': nontrivial, 'tags': tags}
+
+
+ENGINES = [IncludeEngine(), PackageNameEngine(), PackagePortionsEngine(), IncludeDynRegEngine()]
